@@ -1,11 +1,17 @@
 """C08 - remap rebuilds nested data exactly as a recursive map would; research paths retrievable.
 
-A case is one object graph (nodes with identity: dict / list / tuple / set / frozenset, atoms None /
-int / str, references between nodes - sharing and cycles allowed), one callback program from a
-table-defined family (first matching rule decides: keep / drop / rewrite / raise), and a mode:
+A case is one object graph (nodes with identity: dict / list / tuple / set / frozenset, scalar leaves
+None / int / str / bytes / float / bool, references between nodes - sharing and cycles allowed), one
+callback program from a table-defined family (first matching rule decides: keep / drop / rewrite /
+raise), and a mode:
   M  remap(root, visit=program)              -> the rebuilt object graph (types, keys, order, identity pattern)
   Q  research(root, query=program) + get_path on every reported path
+optionally preceded by a warm-up call (`warm`: another program run first on the same input, result
+discarded - remap must not remember anything from one call to the next).
 The Lean driver evaluates the same program on its model of the same graph.
+
+Atoms in a case (JSON): null, int, str, {"y": hex} = bytes, {"f": n} = the float n/2, {"b": 0|1} = bool,
+{"o": n} = the n-th of OPAQUE (Ellipsis, a complex number, the builtin function len).
 """
 import itertools
 
@@ -29,8 +35,41 @@ def kind_of(v):
     return KIND_OF.get(type(v))
 
 
+# further scalar objects ({"o": n} in a case): all truthy, each == only to itself
+OPAQUE = [Ellipsis, complex(1, 2), len]
+
+
 def is_atom(v):
-    return v is None or type(v) is int or type(v) is str
+    return v is None or type(v) in (int, str, bytes, float, bool, complex, type(Ellipsis), type(len))
+
+
+def dec(a):
+    """case-level atom -> the Python object"""
+    if type(a) is dict:
+        if 'y' in a:
+            return bytes.fromhex(a['y'])
+        if 'f' in a:
+            return a['f'] / 2.0
+        if 'b' in a:
+            return bool(a['b'])
+        if 'o' in a:
+            return OPAQUE[a['o']]
+        raise AssertionError(a)
+    return a
+
+
+def Y(b):
+    return {'y': b.hex()}
+
+
+def collidable(a):
+    """atoms Python identifies with an int in hashed positions (1 == 1.0 == True): bools, integral floats"""
+    return type(a) is dict and ('b' in a or ('f' in a and a['f'] % 2 == 0))
+
+
+def hash_stable(a):
+    """atoms whose hash does not depend on the process (set order reproducible) and that collide with nothing"""
+    return a is None or type(a) is int or (type(a) is dict and 'f' in a and a['f'] % 2 == 1)
 
 
 # --------------------------------------------------------------------------- case -> real objects
@@ -53,7 +92,7 @@ def build(case):
             if not done[j]:
                 imm(j)
             return objs[j]
-        return o
+        return dec(o)
 
     def imm(i):
         if i in busy:
@@ -76,14 +115,14 @@ def build(case):
                 objs[i].extend(val(o) for o in items)
             elif kd == 'd':
                 for k, o in items:
-                    objs[i][k] = val(o)
+                    objs[i][val(k)] = val(o)      # a key may be a reference to a tuple / frozenset node
             elif kd == 's':
                 for o in items:
                     objs[i].add(val(o))
     except TypeError:
         raise Unbuildable('unhashable member')
     root = case['root']
-    return (objs[root[0]] if is_ref(root) else root), objs
+    return (objs[root[0]] if is_ref(root) else dec(root)), objs
 
 
 def children(v):
@@ -102,7 +141,25 @@ def atom_s(a):
         return 'i%d' % a
     if type(a) is str:
         return 's' + a.encode('utf-8').hex()
+    if type(a) is bytes:
+        return 'y' + a.hex()
+    if type(a) is bool:
+        return 'b1' if a else 'b0'
+    for n, o in enumerate(OPAQUE):
+        if type(a) is type(o) and a == o:
+            return 'o%d' % n
+    if type(a) is float and a == a and abs(a) < 1e15 and (a * 2) == int(a * 2):
+        return 'f%d' % int(a * 2)
     return '?' + type(a).__name__ + ':' + repr(a)
+
+
+def key_s(k):
+    """dict key / path segment: an atom, or a hashable container (tuple / frozenset used as a dict key)"""
+    return atom_s(k) if kind_of(k) is None else 'K' + plain(k)
+
+
+def has_container_key(root):
+    return any(type(v) is dict and any(kind_of(k) is not None for k in v) for v in containers_of(root).values())
 
 
 def plain(v, depth=0):
@@ -113,7 +170,7 @@ def plain(v, depth=0):
     if depth > 400:
         return '?deep'
     if kd == 'd':
-        parts = [atom_s(k) + '=' + plain(c, depth + 1) for k, c in v.items()]
+        parts = [key_s(k) + '=' + plain(c, depth + 1) for k, c in v.items()]
     else:
         parts = [plain(c, depth + 1) for c in v]
         if kd in ('s', 'f'):
@@ -155,7 +212,7 @@ def labelled(root):
                 out.append(',')
             first = False
             if kd == 'd':
-                out.append(atom_s(k) + '=')
+                out.append(key_s(k) + '=')
             go(c, depth + 1)
         out.append(']')
     go(root, 0)
@@ -222,11 +279,12 @@ def arg_tok(name, arg):
         return LETTER[arg]
     if name == 'pathLenGe':
         return str(arg)
-    return atom_s(arg)
+    return atom_s(dec(arg))
 
 
 def part_tok(part):
-    return part[0] if len(part) == 1 else part[0] + ':' + arg_tok(part[0], part[1])
+    # the exception class of a `raise` rule is the harness's business: the model only knows "visit raises"
+    return part[0] if len(part) == 1 or part[0] == 'raise' else part[0] + ':' + arg_tok(part[0], part[1])
 
 
 def prog_tok(prog):
@@ -248,6 +306,12 @@ def ev_cond(cond, p, k, v):
         return type(v) is int
     if name == 'isStr':
         return type(v) is str
+    if name == 'isBytes':
+        return type(v) is bytes
+    if name == 'isFloat':
+        return type(v) is float
+    if name == 'isBool':
+        return type(v) is bool
     if name == 'isCont':
         return kd is not None
     if name == 'isKind':
@@ -257,20 +321,33 @@ def ev_cond(cond, p, k, v):
     if name == 'falsy':
         return not v
     if name == 'valIs':
-        return kd is None and type(v) is type(cond[1]) and v == cond[1]
+        lit = dec(cond[1])
+        return kd is None and type(v) is type(lit) and v == lit
     if name == 'keyIs':
-        return type(k) is type(cond[1]) and k == cond[1]
+        lit = dec(cond[1])
+        return type(k) is type(lit) and k == lit
     if name == 'keyIsInt':
         return type(k) is int
     if name == 'pathLenGe':
         return len(p) >= cond[1]
     if name == 'pathLastIs':
-        return len(p) > 0 and type(p[-1]) is type(cond[1]) and p[-1] == cond[1]
+        lit = dec(cond[1])
+        return len(p) > 0 and type(p[-1]) is type(lit) and p[-1] == lit
     raise AssertionError(name)
 
 
-class VisitRaised(ValueError):
-    pass
+# what a `raise` rule raises: ['raise'] = ValueError, ['raise', name] = that builtin class.  The classes are
+# the ones remap / default_exit / research / get_path catch somewhere for their own purposes (a visit's
+# exception must pass through all of those untouched) plus unrelated ones.  TypeError is left out: it is
+# what remap itself raises for a scalar root, and the observation records class names only.
+RAISE_CLASSES = {c.__name__: c for c in (ValueError, KeyError, IndexError, AttributeError, LookupError,
+                                         RuntimeError, StopIteration, ZeroDivisionError, AssertionError,
+                                         UnicodeError, OSError, ArithmeticError)}
+VISIT_EXC = tuple(RAISE_CLASSES.values())
+
+
+def raise_names(prog):
+    return set((r[2][1] if len(r[2]) > 1 else 'ValueError') for r in prog if r[2][0] == 'raise')
 
 
 def ev_act(act, p, k, v):
@@ -284,17 +361,21 @@ def ev_act(act, p, k, v):
     if name == 'incr':
         return (k, v + 1) if type(v) is int else (k, v)
     if name == 'setKey':
-        return (act[1], v)
+        return (dec(act[1]), v)
     if name == 'setVal':
-        return (k, act[1])
+        return (k, dec(act[1]))
     if name == 'keyIncr':
         return (k + 1, v) if type(k) is int else (k, v)
+    if name == 'keyNeg':
+        return (-k, v) if type(k) is int else (k, v)
+    if name == 'keyStr':
+        return (str(k), v) if type(k) is int else (k, v)
     if name == 'valLen':
         return (k, len(v)) if kind_of(v) is not None else (k, v)
     if name == 'valDepth':
         return (k, len(p))
     if name == 'raise':
-        raise ValueError('visit')
+        raise RAISE_CLASSES[act[1] if len(act) > 1 else 'ValueError']('visit')
     raise AssertionError(name)
 
 
@@ -345,18 +426,43 @@ NAMED_PROGS = [
     [[0, ['isNone'], ['raise']]],
     [[1, ['isCont'], ['drop']]],
     [[0, ['isInt'], ['setVal', 1]]],
+    # round 2: programs that act on what is INSIDE a str / bytes leaf if it were traversed (ints, 1-char
+    # strs, int keys), on the new leaf kinds, and that rewrite keys non-monotonically
+    [[0, ['isInt'], ['drop']]],
+    [[0, ['isStr'], ['drop']]],
+    [[0, ['isBytes'], ['drop']]],
+    [[0, ['isBytes'], ['setVal', None]], [0, ['isFloat'], ['setVal', 0]], [0, ['isBool'], ['drop']]],
+    [[1, ['isBytes'], ['drop']]],
+    [[0, ['keyIsInt'], ['drop']]],
+    [[0, ['always'], ['keyNeg']]],
+    [[0, ['always'], ['keyStr']]],
+    [[0, ['isInt'], ['setVal', 300]]],
+    [[0, ['isCont'], ['keep']], [0, ['pathLenGe', 2], ['drop']]],
+    [[0, ['valIs', {'y': '6162'}], ['setVal', {'y': ''}]], [0, ['falsy'], ['drop']]],
 ]
 
-ATOMS = [None, 0, 1, 2, -1, 3, '', 'a', 'b', 's']
-HASH_ATOMS = [None, 0, 1, 2, -1, 3, 7, 10]
-KEYS = ['a', 'b', 0, 1, None, 'k', 2, '']
+ATOMS = [None, 0, 1, 2, -1, 3, '', 'a', 'b', 's',
+         {'y': '6162'}, {'y': ''}, {'y': '00ff'}, {'f': 3}, {'f': 4}, {'f': 0}, {'b': 1}, {'b': 0},
+         10 ** 20, '\u00e9x', {'y': '61'}, 'ab', {'o': 0}, {'o': 1}, {'o': 2}]
+# members of sets / frozensets (directly or inside tuples): no str / bytes (their hashes - hence the set's
+# iteration order - differ from process to process), no bool / integral float (1 == 1.0 == True)
+HASH_ATOMS = [None, 0, 1, 2, -1, 3, 7, 10, {'f': 3}, {'f': -1}]
+# dict keys: insertion ordered, so str / bytes are fine; falsy keys ('' b'' 0 None), digit strings (what
+# a dotted-string path would contain), keys equal to a list index
+KEYS = ['a', 'b', 0, 1, None, 'k', 2, '', {'y': ''}, {'y': '6b'}, '0', '1', '10', {'f': 3}, -1, 'a.b']
 CONDS = [['always'], ['isNone'], ['isInt'], ['isStr'], ['isCont'], ['isKind', 'd'], ['isKind', 'l'],
          ['isKind', 't'], ['isKind', 's'], ['isKind', 'f'], ['isEmptyCont'], ['falsy'], ['valIs', 1],
          ['valIs', None], ['valIs', 'a'], ['keyIs', 0], ['keyIs', 1], ['keyIs', 'a'], ['keyIs', None],
          ['keyIsInt'], ['pathLenGe', 1], ['pathLenGe', 2], ['pathLenGe', 3], ['pathLastIs', 0],
-         ['pathLastIs', 1], ['pathLastIs', 'a']]
+         ['pathLastIs', 1], ['pathLastIs', 'a'],
+         ['isBytes'], ['isFloat'], ['isBool'], ['isInt'], ['valIs', {'y': '6162'}], ['keyIs', '0'],
+         ['keyIs', {'y': ''}], ['keyIs', ''], ['pathLastIs', '1'], ['valIs', {'f': 3}]]
+# literals written by setKey / setVal may end up in a set: never bool / integral float
 ACTS = [['keep'], ['keepPair'], ['drop'], ['drop'], ['incr'], ['setKey', 0], ['setKey', 'a'], ['setKey', None],
-        ['setVal', None], ['setVal', 1], ['setVal', 'a'], ['keyIncr'], ['valLen'], ['valDepth']]
+        ['setVal', None], ['setVal', 1], ['setVal', 'a'], ['keyIncr'], ['valLen'], ['valDepth'],
+        ['keyNeg'], ['keyStr'], ['setVal', {'y': '6162'}], ['setVal', {'f': 3}], ['setKey', {'y': ''}],
+        ['setKey', '1'], ['setVal', 300]]
+RAISE_NAMES = sorted(RAISE_CLASSES)
 
 
 # --------------------------------------------------------------------------- independent reference
@@ -403,6 +509,66 @@ def reference_remap(root, visit):
     memo = {}
     out = rebuild_children(root, visit, (), memo)   # the root itself does not extend the path
     return out
+
+
+class UndefinedRebuild(Exception):
+    """the recursive rebuild has no answer: a reference back to a tuple / frozenset that is still being rebuilt"""
+
+
+def content_blind(prog):
+    """does the program decide without looking INSIDE container values (only at their kind)?  For such a
+    program the rebuild of a cyclic structure does not depend on when a container under construction
+    gets its items."""
+    for _neg, cond, act in prog:
+        if cond[0] in ('isEmptyCont', 'falsy') or act[0] == 'valLen':
+            return False
+    return True
+
+
+def reference_remap_cyclic(root, visit):
+    """The bottom-up recursive rebuild for object graphs WITH reference cycles, the way a recursive copy of
+    a cyclic structure has to be written: a mutable container is created empty and remembered before its
+    items are rebuilt (so a reference back to it finds it), and filled afterwards; every container is
+    rebuilt once; every item - a back reference too - is handed to visit once.  A reference back to an
+    immutable container under construction has no answer (UndefinedRebuild)."""
+    memo = {}
+    busy = set()
+
+    def value(v, child_path):
+        if kind_of(v) is None:
+            return v
+        if id(v) in memo:
+            return memo[id(v)]
+        if id(v) in busy:
+            raise UndefinedRebuild()
+        return container(v, child_path)
+
+    def container(v, path):
+        kd = kind_of(v)
+        if kd in MUTABLE:
+            out = memo[id(v)] = KINDS[kd]()
+        else:
+            busy.add(id(v))
+        new = []
+        for k, c in children(v):
+            nc = value(c, path + (k,))
+            r = visit(path, k, nc)
+            if r is False:
+                continue
+            if r is True:
+                r = (k, nc)
+            new.append(r)
+        if kd == 'd':
+            out.update(new)
+        elif kd == 'l':
+            out.extend(x for _, x in new)
+        elif kd == 's':
+            out.update(x for _, x in new)
+        else:
+            out = memo[id(v)] = KINDS[kd](x for _, x in new)
+            busy.discard(id(v))
+        return out
+    return container(root, ())
 
 
 def has_cycle(root):
@@ -476,11 +642,25 @@ def tuple_backref_witness(src, dst):
 
 class C08(Property):
     PID = 'C08'
-    QUICK_BUDGET_S = 38
+    QUICK_BUDGET_S = 60
     THOROUGH_BUDGET_S = 700
-    RULE = ('a case = one object graph over dict/list/tuple/set/frozenset with None/int/str atoms (shared and '
+    RULE = ('a case = one object graph over dict/list/tuple/set/frozenset with scalar leaves (shared and '
             'cyclic references included) + one callback program (first matching rule of cond->keep/drop/rewrite/'
-            'raise) + mode (M: remap, Q: research then get_path on each reported path). Exhaustive: all trees of '
+            'raise) + mode (M: remap, Q: research then get_path on each reported path). Every case makes its call '
+            'TWICE on the same input: the second call is observed and both outcomes must agree (nothing survives '
+            'from one call to the next); optionally the first call uses another (warm-up) program. Tuples / '
+            'frozensets as dict keys occur too (oracle-only). For cyclic input with a dropping / rewriting program '
+            'that does not look inside container values the oracle rebuilds recursively with containers '
+            'remembered before their items. Leaves: None, ints (incl. > 64 bit), str (empty, non-ASCII, '
+            'multi-char), bytes (empty, 1 byte, non-ASCII), floats (n/2; integral ones and bools only outside '
+            'hashed positions), bools, three other scalar objects (Ellipsis, a complex, a builtin function). First in the stream, small families: every leaf kind x every container '
+            'kind (alone, beside an int, in a shared tuple/frozenset) x every named program (programs acting on '
+            'ints / 1-char strs / int keys / depth, i.e. on what is inside a str or bytes leaf if it were '
+            'traversed); boundary sizes 9,10,11,12,21,101 of each kind x key-rewriting programs (keyStr, keyNeg, '
+            'keyIncr, constant key); dict keys of every kind at two levels (falsy keys, digit strings, bytes, '
+            'float, dotted) x research/get_path; two calls in a row on the same input; raising callbacks of 12 '
+            'exception classes at a leaf / at a rebuilt container / in a set member, reraise on and off. Then '
+            'exhaustive: all trees of '
             'depth <= 2 / width <= 2 over 2 atoms and 5 kinds, all 2-node graphs over list/dict/tuple with items '
             'in {atom, @0, @1}; seeded random graphs up to depth 6 with sharing pools and back references; '
             'adversarial shapes (deep chains, wide nodes, one object referenced many times, cycles through '
@@ -488,8 +668,14 @@ class C08(Property):
             'Non-trivial = container root with at least one nested container and no harness skip; '
             'distinct = distinct (graph, program, mode).')
     ASSUMPTIONS = [
-        'leaves are None / int / str (no bool, float, NaN, bytes); dict keys are such leaves; == on leaves is '
-        'consistent with their text',
+        'leaves are None / int / str / bytes / float n/2 / bool / Ellipsis, 1+2j, len (no NaN, user objects); dict keys are '
+        'None / int / str / bytes / non-integral float (tuples / frozensets of such as keys: oracle-only); == on leaves is consistent with their text: bools and '
+        'integral floats (1 == 1.0 == True) occur only outside hashed positions (never dict keys, set members, '
+        'members of tuples inside sets, literals a program writes)',
+        'remap / research keep no state between calls (model = pure function of one call); checked on the '
+        'implementation: every case makes its call twice on the same input',
+        'a raising callback raises one of 12 builtin exception classes (not TypeError, which remap itself uses '
+        'for a scalar root); the model only knows "the callback raised", the oracle demands the same class',
         'visit / query callbacks are pure programs from the table-defined family, evaluated identically by the '
         'harness (Python) and the model (Lean); custom enter / exit callbacks are outside (the tree-level theorem '
         'is generic in exit)',
@@ -502,7 +688,12 @@ class C08(Property):
     # ------------------------------------------------------------------ generation
     def cases(self, budget_s):
         rng = self.rng
+        # small, diverse, adversarial families first (a slow machine cut by the budget never loses them)
+        for c in self.round2_families():
+            yield c
         for c in self.edge_cases():
+            yield c
+        for c in self.adversarial(rng, 120):
             yield c
         for c in self.exhaustive_trees():
             yield c
@@ -513,7 +704,7 @@ class C08(Property):
         if self.thorough:
             for c in self.sampled_graphs3(rng, 150000):
                 yield c
-        n_rand = 1200000 if self.thorough else 60000
+        n_rand = 900000 if self.thorough else 50000
         for i in range(n_rand):
             yield self.random_case(rng, big=(i % 7 == 0))
 
@@ -539,6 +730,109 @@ class C08(Property):
         yield self.mk([['l', [[0]]]], [0], [], default=1)
         yield self.mk([['d', [['me', [0]]]]], [0], [], default=1)
         yield self.mk([['t', [[1], 1]], ['l', [[0]]]], [0], [], default=1)
+
+    def round2_families(self):
+        mk = self.mk
+        Q_ALL = [[0, ['always'], ['keep']]]
+        # (d) two calls in a row on the same input: nothing may survive from the first (warm-up) call.  Very first in
+        # the stream: the process has not called remap yet, so a failure here is reproducible from the case alone
+        shapes = [([['l', [[1], [1], 1]], ['t', [None, 2]]], [0]),
+                  ([['l', [[0], 5]]], [0]),
+                  ([['d', [['a', [1]], ['b', [1]]]], ['d', [['x', None]]]], [0]),
+                  ([['t', [[1], [2]]], ['f', [1, None]], ['l', [[1]]]], [0]),
+                  ([['s', [1, 2, None]]], [0])]
+        warms = [[], [[0, ['isNone'], ['raise']]], [[0, ['always'], ['drop']]], [[0, ['isCont'], ['valLen']]],
+                 [[0, ['isInt'], ['raise', 'KeyError']]]]
+        for nodes, root in shapes:
+            for w in warms:
+                for prog in ([], [[0, ['isInt'], ['incr']]], [[0, ['isCont'], ['drop']]]):
+                    c = mk(nodes, root, prog)
+                    c['warm'] = w
+                    yield c
+                c = mk(nodes, root, [], default=1)
+                c['warm'] = w
+                yield c
+                c = mk(nodes, root, Q_ALL, mode='Q')
+                c['warm'] = w
+                yield c
+        # (a) every kind of scalar leaf in every kind of container under every named program.  A leaf that
+        # is wrongly traversed (str / bytes are Sequences) shows under a program acting on what is inside
+        # it (ints, 1-char strs, int keys, depth); a leaf kind wrongly rebuilt shows under the default.
+        leaves = [Y(b'ab'), Y(b''), Y(b'\x00\xff'), Y(b'a'), 'ab', '', '\u00e9x', {'f': 3}, {'f': 4}, {'f': 0},
+                  {'b': 1}, {'b': 0}, 10 ** 20, {'o': 0}, {'o': 1}]
+        for a in leaves:
+            for kd in 'ldtsf':
+                if kd in 'sf' and collidable(a):
+                    continue
+                shapes = [[[kd, [['k', a]] if kd == 'd' else [a]]]]          # alone (also: singleton sets of str / bytes)
+                if kd not in 'sf' or hash_stable(a):
+                    shapes.append([[kd, [['k', a], [0, 1]] if kd == 'd' else [a, 1]]])     # beside an int
+                if kd in 'tf' and (kd == 't' or not collidable(a)):
+                    shapes.append([['l', [[1], a, [1]]], [kd, [a]]])          # in a shared immutable container
+                for nodes in shapes:
+                    for prog in NAMED_PROGS:
+                        yield mk(nodes, [0], prog)
+                    yield mk(nodes, [0], [], default=1)
+                    yield mk(nodes, [0], Q_ALL, mode='Q')
+                    yield mk(nodes, [0], [[0, ['isInt'], ['keep']], [0, ['always'], ['drop']]], mode='Q', reraise=0)
+        # (b) boundary sizes: 9..12 items (two-digit indices start), 21, 101; order-revealing values; programs
+        # that rewrite keys non-monotonically (a list / tuple ignores the keys: visiting order must be kept)
+        size_progs = [[], [[0, ['always'], ['keyStr']]], [[0, ['always'], ['keyNeg']]], [[0, ['always'], ['keyIncr']]],
+                      [[0, ['always'], ['setKey', 'k']]], [[0, ['keyIs', 10], ['drop']]],
+                      [[0, ['isInt'], ['incr']]], [[0, ['keyIs', '10'], ['setKey', 2]]]]
+        for n in (9, 10, 11, 12, 21, 101):
+            vals = [100 + ((i * 7) % n) for i in range(n)]
+            for kd in 'ltdDsf':
+                if kd == 'd':
+                    nodes = [['d', [[i, v] for i, v in enumerate(vals)]]]
+                elif kd == 'D':
+                    nodes = [['d', [[str(i), v] for i, v in enumerate(vals)]]]
+                else:
+                    nodes = [[kd, list(vals)]]
+                for prog in size_progs:
+                    yield mk(nodes, [0], prog)
+                yield mk(nodes, [0], [], default=1)
+                yield mk(nodes, [0], Q_ALL, mode='Q')
+                # the same container nested and referenced twice
+                yield mk([['l', [[1], [1]]]] + [nodes[0]], [0], size_progs[1 + n % 3])
+        # (c) dict keys of every kind at two levels (falsy keys, digit strings, bytes, float, a key equal to a
+        # list index, a dotted key): paths through them, research + get_path
+        for k1 in KEYS:
+            for k2 in KEYS:
+                nodes = [['d', [[k1, [1]], ['z', 5]] if k1 != 'z' else [[k1, [1]]]], ['d', [[k2, 7]]]]
+                yield mk(nodes, [0], Q_ALL, mode='Q')
+                yield mk(nodes, [0], [[0, ['always'], ['valDepth']]])
+            nodes = [['d', [[k1, [1]]]], ['l', [7, [2]]], ['d', [[k1, 8]]]]
+            yield mk(nodes, [0], Q_ALL, mode='Q')
+            yield mk(nodes, [0], [[0, ['pathLastIs', k1], ['setVal', 'A']]])
+            yield mk(nodes, [0], [[0, ['keyIs', k1], ['drop']]])
+        # (f) tuples / frozensets as dict keys (legal, outside the model: oracle-only): keys are never traversed or
+        # rebuilt, a path segment may be a tuple (also the empty tuple, a tuple that spells another path, a key
+        # that is also a value)
+        key_shapes = [
+            [['d', [[[1], 5], ['a', [2]]]], ['t', [1, 2]], ['d', [[[3], None], [[1], [1]]]], ['f', [1]]],
+            [['d', [[[1], 1], ['k', [2]]]], ['t', ['k', 0, 'a']], ['l', [[3]]], ['d', [['a', 9]]]],
+            [['l', [[1], [2]]], ['d', [[[2], [2]], [[3], 0]]], ['t', []], ['t', [0]]],
+            [['d', [[[1], [2]]]], ['f', [1, 2]], ['l', [[1], 3]]],
+        ]
+        for nodes in key_shapes:
+            for prog in NAMED_PROGS:
+                yield mk(nodes, [0], prog)
+            yield mk(nodes, [0], [], default=1)
+            yield mk(nodes, [0], Q_ALL, mode='Q')
+            yield mk(nodes, [0], [[0, ['isInt'], ['keep']], [0, ['always'], ['drop']]], mode='Q')
+        # (e) a raising visit / query, every exception class of the family, at a leaf / at a container that has
+        # just been rebuilt / inside a set member, with and without re-raising
+        for name in RAISE_NAMES:
+            for cond in (['isNone'], ['isCont'], ['keyIs', 1]):
+                for nodes in ([['l', [1, None, [1]]], ['t', [None]]],
+                              [['d', [['a', [1]], [1, None]]], ['l', []]],
+                              [['s', [[1], 3]], ['t', [None, 2]]]):
+                    for rr in (1, 0):
+                        p = [[0, cond, ['raise', name]]]
+                        yield mk(nodes, [0], p, reraise=rr)
+                        yield mk(nodes, [0], p, mode='Q', reraise=rr)
+                        yield mk(nodes, [0], [[0, ['isInt'], ['incr']]] + p, reraise=rr)
 
     def tree_values(self, depth, atoms):
         """all (nodes-free) nested literal values of the given depth bound, as python-ish specs"""
@@ -650,7 +944,7 @@ class C08(Property):
         for _ in range(rng.randint(1, 3)):
             act = rng.choice(ACTS)
             if rng.random() < 0.03:
-                act = ['raise']
+                act = ['raise'] if rng.random() < 0.4 else ['raise', rng.choice(RAISE_NAMES)]
             prog.append([1 if rng.random() < 0.15 else 0, rng.choice(CONDS), act])
         return prog
 
@@ -681,13 +975,20 @@ class C08(Property):
             nh = need_hash or kd in ('s', 'f')
             if kd == 'd':
                 keys = rng.sample(KEYS, min(n, len(KEYS)))
+                if keys and rng.random() < 0.04:
+                    # a tuple / frozenset (finished, hash-stable) as a dict key: outside the model, oracle-only
+                    cands = [j for j in range(len(nodes)) if hashable.get(j)]
+                    if cands:
+                        keys[rng.randrange(len(keys))] = [rng.choice(cands)]
                 items = [[k, gen(d - 1, nh)] for k in keys]
                 kids = [o for _k, o in items]
             else:
                 items = kids = [gen(d - 1, nh) for _ in range(n)]
             nodes[i][1] = items
             open_nodes.pop()
-            hashable[i] = kd in ('t', 'f') and all((not is_ref(o)) or hashable.get(o[0], False) for o in kids)
+            # "may be referenced from inside a set": hashable AND made of hash-stable, collision-free atoms
+            hashable[i] = kd in ('t', 'f') and all(hashable.get(o[0], False) if is_ref(o) else hash_stable(o)
+                                                   for o in kids)
             return [i]
         root = gen(depth, False)
         tries = 0
@@ -705,7 +1006,10 @@ class C08(Property):
         mode = 'Q' if rng.random() < 0.25 else 'M'
         prog = self.random_prog(rng)
         default = 1 if (mode == 'M' and not prog and rng.random() < 0.7) else 0
-        return self.mk(nodes, root, prog, mode=mode, reraise=0 if rng.random() < 0.2 else 1, default=default)
+        c = self.mk(nodes, root, prog, mode=mode, reraise=0 if rng.random() < 0.2 else 1, default=default)
+        if rng.random() < 0.04:
+            c['warm'] = self.random_prog(rng)
+        return c
 
     def adversarial(self, rng, n):
         for t in range(n):
@@ -758,10 +1062,24 @@ class C08(Property):
 
     # ------------------------------------------------------------------ model line
     def line(self, case):
+        # the runner asks for the line once and render() needs its tree flag again: remember it per case object
+        cache = self.__dict__.setdefault('_lines', {})
+        hit = cache.get(id(case))
+        if hit is not None and hit[0] is case:
+            return hit[1]
+        if len(cache) > 2000:
+            cache.clear()
+        ln = self.line_of(case)
+        cache[id(case)] = (case, ln)
+        return ln
+
+    def line_of(self, case):
         try:
             root, _objs = build(case)
         except Unbuildable:
             return None
+        if has_container_key(root):
+            return None        # the model's keys are scalars: tuples / frozensets as dict keys are oracle-only
         r, nodes, is_tree = walk(root)
         prog = case['prog']
         tree = 1 if (is_tree and is_ref(r) and not (case['reraise'] and has_act(prog, 'raise'))) else 0
@@ -775,7 +1093,6 @@ class C08(Property):
 
     # ------------------------------------------------------------------ implementation
     def impl(self, case):
-        from boltons.iterutils import remap, research, get_path, PathAccessError
         try:
             root, _objs = build(case)
         except Unbuildable:
@@ -784,56 +1101,92 @@ class C08(Property):
         in_containers = containers_of(root)
         prog = case['prog']
         hits = {}
-        fn = make_fn(prog, hits)
         obs = {}
         try:
             # a mutated implementation may loop (and allocate) forever on cyclic input: keep the limit short,
             # and shorter still once timeouts have been seen (normal cases take well under a millisecond)
             with time_limit(2 if self.stats.get('timeouts', 0) < 2 else 0.3):
-                if case['mode'] == 'M':
-                    if case.get('default'):
-                        res = remap(root)
-                    elif case['reraise']:
-                        res = remap(root, visit=fn)            # reraise_visit defaults to True
-                    else:
-                        res = remap(root, visit=fn, reraise_visit=False)
-                    obs['res'] = labelled(res)
-                    obs['plain'] = plain(res) if not has_cycle(res) else None
-                    out_containers = containers_of(res)
-                    obs['shared_mutable'] = sorted(LETTER[kind_of(v)] for i, v in out_containers.items()
-                                                   if i in in_containers and kind_of(v) in MUTABLE)
-                    if keeps_everything(prog) and kind_of(root) is not None:
-                        obs['copy_diff'] = tuple_backref_witness(root, res)
+                # Every case makes the call TWICE on the same input and reports the second call: remap /
+                # research keep nothing from one call to the next.  `warm` = a different program for the
+                # first call (its outcome is discarded); without it the first call is the same call, and both
+                # outcomes must be identical.  (A defect that keeps state between calls is then reproducible
+                # from the case alone, not only in a process that happened to run other cases before.)
+                if case.get('warm') is not None:
+                    self.one_call(case['mode'], root, in_containers, case['warm'], 0, 1, None)
+                    first = None
                 else:
-                    found = research(root, query=fn, reraise=bool(case['reraise']))
-                    entries = []
-                    for path, value in found:
-                        shallow = atom_s(value) if kind_of(value) is None else '%s%d' % (LETTER[kind_of(value)], len(value))
-                        if value is root and kind_of(root) is not None:
-                            status = 'root'
-                        else:
-                            try:
-                                g = get_path(root, path)
-                                if g is value or (is_atom(g) and is_atom(value) and type(g) is type(value) and g == value):
-                                    status = 'ok'
-                                else:
-                                    status = 'neq'
-                            except PathAccessError:
-                                status = 'err'
-                            except Exception as e:
-                                status = 'exc:' + exc_name(e)
-                        entries.append(['/'.join(atom_s(a) for a in path), shallow, status,
-                                        1 if self.path_hits_set(root, path) else 0])
-                    obs['entries'] = entries
+                    first = self.one_call(case['mode'], root, in_containers, prog, case.get('default'),
+                                          case['reraise'], None, light=True)
+                obs = self.one_call(case['mode'], root, in_containers, prog, case.get('default'),
+                                    case['reraise'], hits)
+                if first is not None and self.brief(first) != self.brief(obs):
+                    obs['unstable'] = [self.brief(first), self.brief(obs)]
         except CaseTimeout:
             obs = {'exc': 'CaseTimeout'}
             self.stats['timeouts'] = self.stats.get('timeouts', 0) + 1
-        except Exception as e:
-            obs = {'exc': exc_name(e)}
         obs['mutated'] = 0 if (labelled(root) == before and
                                set(containers_of(root)) == set(in_containers)) else 1
         for k, v in hits.items():
             self.stats['act:' + k] = self.stats.get('act:' + k, 0) + v
+        return obs
+
+    @staticmethod
+    def brief(o):
+        if 'exc' in o:
+            return '!' + o['exc']
+        if 'res' in o:
+            return o['res']
+        return ';'.join('%s>%s:%s' % (p, s, st) for p, s, st, _ in o.get('entries', [])) or '-'
+
+    def one_call(self, mode, root, in_containers, prog, default, reraise, hits, light=False):
+        """one remap / research(+get_path) call on the real code -> observation (CaseTimeout passes through)"""
+        from boltons.iterutils import remap, research, get_path, PathAccessError
+        fn = make_fn(prog, hits)
+        obs = {}
+        try:
+            if mode == 'M':
+                if default:
+                    res = remap(root)
+                elif reraise:
+                    res = remap(root, visit=fn)            # reraise_visit defaults to True
+                else:
+                    res = remap(root, visit=fn, reraise_visit=False)
+                obs['res'] = labelled(res)
+                if light:
+                    return obs
+                obs['plain'] = plain(res) if not has_cycle(res) else None
+                out_containers = containers_of(res)
+                obs['shared_mutable'] = sorted(LETTER[kind_of(v)] for i, v in out_containers.items()
+                                               if i in in_containers and kind_of(v) in MUTABLE)
+                if keeps_everything(prog) and kind_of(root) is not None:
+                    obs['copy_diff'] = tuple_backref_witness(root, res)
+            else:
+                found = research(root, query=fn, reraise=bool(reraise))
+                entries = []
+                for path, value in found:
+                    shallow = atom_s(value) if kind_of(value) is None else '%s%d' % (LETTER[kind_of(value)], len(value))
+                    if value is root and kind_of(root) is not None:
+                        status = 'root'
+                    else:
+                        try:
+                            g = get_path(root, path)
+                            if g is value or (is_atom(g) and is_atom(value) and type(g) is type(value) and g == value):
+                                status = 'ok'
+                            else:
+                                status = 'neq'
+                        except PathAccessError:
+                            status = 'err'
+                        except CaseTimeout:
+                            raise
+                        except Exception as e:
+                            status = 'exc:' + exc_name(e)
+                    entries.append(['/'.join(key_s(a) for a in path), shallow, status,
+                                    1 if self.path_hits_set(root, path) else 0])
+                obs['entries'] = entries
+        except CaseTimeout:
+            raise
+        except Exception as e:
+            obs = {'exc': exc_name(e)}
         return obs
 
     @staticmethod
@@ -858,6 +1211,8 @@ class C08(Property):
             return 'skip'
         if 'exc' in obs:
             h = '!' + obs['exc']
+            if obs['exc'] in raise_names(case['prog']):
+                h = '!ValueError'        # the model's token for "the visit callback raised"
             m = ' M=' + h if case['mode'] == 'M' else ''
             return 'H=%s%s T=%s R=%s' % (h, m, h if tree else '-', h if tree else '-')
         if case['mode'] == 'M':
@@ -884,6 +1239,10 @@ class C08(Property):
             return Failure('nontermination', '%s did not terminate within the time limit' % case['mode'])
         if obs.get('mutated'):
             return Failure('input_mutated', 'the input structure changed during %s' % case['mode'])
+        if obs.get('unstable'):
+            return Failure('call_state', 'two identical %s calls in a row on the same input gave different outcomes: '
+                           'first %s, then %s' % ('remap' if case['mode'] == 'M' else 'research',
+                                                  obs['unstable'][0], obs['unstable'][1]))
         if rk is None:
             self.bump('scalar_root')
             return None        # the property speaks about container roots; correspondence-only
@@ -897,7 +1256,7 @@ class C08(Property):
         if case['mode'] == 'M':
             if 'exc' in obs:
                 self.bump('exc:' + obs['exc'])
-                if raising and obs['exc'] == 'ValueError' and self.reference_raises(root, prog):
+                if raising and obs['exc'] in self.reference_raises(root, prog):
                     return None
                 return Failure('raises', 'remap raised %s' % obs['exc'])
             if cyclic:
@@ -911,10 +1270,28 @@ class C08(Property):
                                            'traversed is rebuilt as an empty tuple: %s -> %s' % (labelled(root), obs['res']))
                         return Failure('deep_copy', 'default remap of a cyclic structure is not an equal copy: %s -> %s'
                                        % (labelled(root), obs['res']))
+                elif content_blind(prog):
+                    # cycles + a callback that drops / rewrites: the recursive rebuild with containers
+                    # remembered before their items are rebuilt (defined unless a cycle runs through a tuple /
+                    # frozenset, and independent of construction order for programs that do not look inside
+                    # container values)
+                    try:
+                        fn = make_fn(prog) if case['reraise'] else self.swallowing(make_fn(prog))
+                        exp = labelled(reference_remap_cyclic(root, fn))
+                    except (UndefinedRebuild, TypeError, RecursionError):
+                        return None
+                    except VISIT_EXC:
+                        if raising:
+                            return Failure('raises', 'visit raises but remap returned %s' % obs['res'])
+                        return None
+                    self.bump('cyclic_rebuild_checked')
+                    if obs['res'] != exp:
+                        return Failure('rebuild_mismatch', 'remap returned %s, the recursive rebuild (containers '
+                                       'remembered before their items) gives %s' % (obs['res'], exp))
                 return None
             try:
                 expected = reference_remap(root, make_fn(prog))
-            except ValueError:
+            except VISIT_EXC:
                 if raising:
                     return Failure('raises', 'visit raises but remap returned %s' % obs['res'])
                 if not case['reraise']:
@@ -936,7 +1313,7 @@ class C08(Property):
         # research
         if 'exc' in obs:
             self.bump('exc:' + obs['exc'])
-            if raising and obs['exc'] == 'ValueError':
+            if raising and obs['exc'] in raise_names(prog):
                 return None
             return Failure('raises', 'research raised %s' % obs['exc'])
         for p, s, st, into_set in obs['entries']:
@@ -953,19 +1330,21 @@ class C08(Property):
         def g(p, k, v):
             try:
                 return fn(p, k, v)
-            except ValueError:
+            except VISIT_EXC:
                 return True
         return g
 
     @staticmethod
     def reference_raises(root, prog):
+        """the class names remap may legitimately raise with: the one the recursive rebuild raises with
+        (for cyclic input, where the plain recursion does not apply, any class the program can raise)"""
         try:
             if has_cycle(root):
-                return True
+                return raise_names(prog)
             reference_remap(root, make_fn(prog))
-        except ValueError:
-            return True
-        return False
+        except VISIT_EXC as e:
+            return {exc_name(e)}
+        return set()
 
     def bump(self, k):
         self.stats[k] = self.stats.get(k, 0) + 1
@@ -988,6 +1367,10 @@ class C08(Property):
     def shrink(self, case):
         nodes = case['nodes']
         prog = case['prog']
+        if case.get('warm'):
+            # simplified, never removed: a defect that keeps state between calls must stay reproducible from
+            # the case alone (without the warm-up call it would fail only in a process that ran other cases)
+            yield dict(case, warm=[])
         for i in range(len(prog)):
             yield dict(case, prog=prog[:i] + prog[i + 1:], default=0)
         for i, (kd, items) in enumerate(nodes):
